@@ -265,7 +265,33 @@ def gen_part(rng, boundary: str, form: bool, depth: int, avoid=(), big_ok=True):
                 part["ce"] = "deflate"
             elif r3 < 0.28:
                 part["ce"] = "identity"
+        # coding names are case-insensitive (RFC 9110 8.4.1, RFC 2045 6.1): a sample of the encoded
+        # parts spells the header value differently ("ce"/"cte" stay the canonical lower-case names)
+        if (part["ce"] or part["cte"]) and rng.random() < 0.3:
+            if part["ce"]:
+                part["ces"] = respell(rng, part["ce"])
+            if part["cte"] and (not part["ce"] or rng.random() < 0.5):
+                part["ctes"] = respell(rng, part["cte"])
     return part
+
+
+def respell(rng, token: str) -> str:
+    """The same coding name in another letter case."""
+    r = rng.random()
+    if r < 0.4:
+        out = token.upper()
+    elif r < 0.7:
+        out = token.title()
+    else:
+        out = "".join(c.upper() if rng.random() < 0.5 else c for c in token)
+    return out if out != token else token.upper()
+
+
+def spelled(part, key: str) -> str:
+    """Header value to give to the writer for "ce" / "cte" (its sampled spelling, if any)."""
+    canon = part.get(key) or ""
+    s = part.get(key + "s")
+    return s if (s and s.lower() == canon) else canon
 
 
 def part_bytes(part, boundary: str) -> bytes:
